@@ -152,7 +152,10 @@ def toTreeFlat (rules : List TRule) (fromStr : List String) (fromLastStr fromLas
   let lst ← assignParents sorted [([], -1)] 0
   -- add the final component of `from_path` back on to all paths
   match fromLastStr, fromLastDisp with
-  | some s, some d => pure (lst.map (fun i => { i with pathStr := s :: i.pathStr, path := i.path.map (d :: ·) }))
+  | some s, some d =>
+      -- `item["path"] = …` reads the item's own path: an implicit parent that no rule described has none
+      if lst.any (fun i => i.path.isNone) then throw .keyError
+      pure (lst.map (fun i => { i with pathStr := s :: i.pathStr, path := i.path.map (d :: ·) }))
   | _, _ => pure lst
 
 /-- nested form -/
